@@ -157,8 +157,25 @@ theorem stepF_N {s s' : State} {i : Nat} (hw : InvW s) (h : InvN s) (hs : stepF 
        · exact Or.inl h
        · exact Or.inr (Or.inl (pingP_set hf (by rw [hpc]; intro hx; cases hx) h))
        · exact Or.inr (Or.inr h))
-    | skip
-  all_goals trace_state
-  all_goals sorry
+
+theorem stepT_N {s s' : State} {t : Tid} (h : InvN s) (hs : stepT s t = some s') : InvN s' := by
+  obtain ⟨h1, h2, h3⟩ := h
+  t_cases hs s t hpc
+  all_goals first
+    | exact ⟨h1, h2, h3⟩
+    | (refine ⟨fun hp hr => ?_, fun hp hr => ?_, fun hc => ?_⟩ <;> first
+        | (cases hp; done)
+        | (rcases h3 hc with h | h | h <;> first
+            | exact Or.inl h
+            | exact Or.inr (Or.inl h)
+            | (simp [draining, hpc] at h; done)))
+
+theorem init_N (threaded : Bool) (users : List (List Bool)) (progs : List (List Op)) :
+    InvN (Handoff.init threaded users progs) :=
+  ⟨fun hp => (by cases hp), fun hp => (by cases hp), fun hc => absurd rfl hc⟩
+
+theorem reach_N {threaded users progs} {s : State} (hr : Reachable threaded users progs s) : InvN s :=
+  hr.induct (init_N _ _ _) (fun _ _ _ h hs => stepS_N h hs) (fun _ _ hr h hs => stepH_N (reach_W hr) h hs)
+    (fun _ _ _ hr h hs => stepF_N (reach_W hr) h hs) (fun _ _ _ _ h hs => stepT_N h hs)
 
 end Pox.Handoff
